@@ -151,6 +151,8 @@ def build_cpp_driver(name, sanitize):
     cmd = ["clang++", "-std=c++17", "-g", "-gdwarf-4", "-O1", "-fno-omit-frame-pointer"]
     if sanitize == "asan":
         cmd += ["-fsanitize=address,undefined", "-fno-sanitize-recover=all"]
+    if sanitize == "fuzz":
+        cmd += ["-fsanitize=fuzzer,address,undefined", "-fno-sanitize-recover=all", "-DCONTAINER_FUZZ"]
     cmd += ["-I", os.path.join(REPO, "cpp", "include"), "-I", p["inc"], src, p["lib"], "-lpthread", "-ldl", "-lm", "-o", out]
     code, path, _ = run_logged(cmd, f"build-{name}-{sanitize}.log")
     if code != 0:
@@ -712,11 +714,21 @@ def conclude(prop, tier, seed, res, wall):
 
 
 def replay(prop, path):
+    if prop == "C17":
+        import c17
+        try:
+            return c17.replay(path)
+        except Inconclusive as e:
+            print(f"INCONCLUSIVE {e}")
+            return 2
     try:
         binary = build_rvmon("native")
     except Inconclusive as e:
         print(f"INCONCLUSIVE {e}")
         return 2
+    if not path.endswith(".json"):
+        # an input of the coverage-guided layer: the choice tape of the property's generator
+        return subprocess.call([binary, prop, "--tape", path], env=base_env())
     tier = "quick"
     try:
         tier = json.load(open(path)).get("tier", "quick")
